@@ -338,6 +338,9 @@ func cmdCheck(args []string) {
 	}
 	sort.Strings(asm)
 	asm = append(asm, standingAssumptions(p, names)...)
+	if *prop == "C02" {
+		asm = append(asm, "conditional hypothesis of every C02 clause (not proved; it is what C14 and the decode side of C01 state): the abstract view of a writer-produced table - blkModel(b), linked(b, r, off), tabM(r), tabMH(r, typ) as defined in verif_contracts.go - holds for the reader and the blocks the seek touches")
+	}
 	bb := map[string]interface{}{}
 	for k, v := range byBackend {
 		bb[k] = map[string]interface{}{"count": int(v["count"]), "seconds": round3(v["seconds"])}
@@ -422,7 +425,11 @@ func standingAssumptions(p *Program, fns []string) []string {
 		if c.Kind == "iface" {
 			out = append(out, "interface contract (assumed at dynamic calls; implementations listed under functions_under_contract are checked against it where a contract names them): "+n)
 		}
-		if c.Trusted {
+		if c.Trusted && c.TrustCalls {
+			out = append(out, "trusted contract (body walked only for its 'proves' clauses and the loop invariants they need; callee preconditions inside are assumed): "+n)
+		} else if c.Trusted && c.CheckCalls {
+			out = append(out, "trusted contract (postconditions and frame assumed; the body is walked for the preconditions of the functions it calls): "+n)
+		} else if c.Trusted {
 			out = append(out, "trusted contract (body not verified): "+n)
 		}
 		for _, cl := range c.Ensures {
